@@ -6,7 +6,7 @@
 (* The trace file (env TRACE_FILE) is a JSON array of traces; a trace is   *)
 (*   [meta |-> ..., events |-> << event, ... >>]   with events             *)
 (*   begin(op, n) | step(pid, win) | cb(idx, pid) | end(op, len) |          *)
-(*   get(ids) | reinit | setstate | sethist(len)                           *)
+(*   get(ids) | reinit | setstate(spid, pid) | sethist(len)                *)
 (* recorded by harness/cuqiverif/record.py after each call returned.       *)
 (* `pid` is the value id of the sampler's current point.                   *)
 (*                                                                         *)
@@ -95,7 +95,10 @@ TReinit == /\ IsEvent("reinit")
            /\ Reinit
            /\ vhist' = <<>> /\ UNCHANGED <<pend, tun>>
 
-TSetState == /\ IsEvent("setstate") /\ UNCHANGED <<vars, vhist, pend, tun>>
+\* set_state(state): the point the sampler continues from is the point of the state that was handed in (0: not logged)
+TSetState == /\ IsEvent("setstate")
+             /\ Ev[l].pid = Ev[l].spid
+             /\ UNCHANGED <<vars, vhist, pend, tun>>
 TSetHist  == /\ IsEvent("sethist") /\ Ev[l].len = Len(hist) /\ UNCHANGED <<vars, vhist, pend, tun>>
 
 TraceNext == TBegin \/ TStep \/ TCb \/ TTune \/ TEnd \/ TGet \/ TReinit \/ TSetState \/ TSetHist
